@@ -9,8 +9,8 @@ field are compared."""
 from . import c17_nets as G
 from . import c19_adv as ADV
 
-CALLS = ["summary", "linkage", "one", "nondeg", "crn0", "crn1", "check0", "check1", "reg"]
-COQ_OP = {"summary": "OSummary", "linkage": "OLinkage", "one": "OOne", "nondeg": "ONondeg", "crn0": "(OCrn false)",
+CALLS = ["summary", "linkage", "one", "nondeg", "nondegt", "crn0", "crn1", "check0", "check1", "reg"]
+COQ_OP = {"summary": "OSummary", "linkage": "OLinkage", "one": "OOne", "nondeg": "ONondeg", "nondegt": "ONondeg", "crn0": "(OCrn false)",
           "crn1": "(OCrn true)", "check0": "OCheck0", "check1": "OCheck1", "reg": "OReg"}
 
 
@@ -52,6 +52,7 @@ def fixed():
         out.append(_case("no-rank/" + view, lad, ["crn1", "check0", "check1", "summary", "one"], opts=(True, False), view=view))
     out.append(_case("no-stoich-no-rank", abc, ["one", "crn1", "crn0", "check0"], opts=(False, False)))
     # >= 2 classes, nullity >= 2, a null step, isolated species
+    out.append(_case("nondeg-tolerance", abc, ["nondegt", "crn0", "nondegt", "nondeg", "nondegt", ["del", "r_3"], "nondegt", "crn1", "nondegt"]))
     out.append(_case("two-classes", ["A >> B", "C >> D", "D >> 2 C"], ["crn1", ["del", "r_3"], "linkage", "nondeg", "crn1"]))
     out.append(_case("null-step", [["r_1", "r", [["A", 1]], [["A", 1]]], ["r_2", "r", [["B", 1]], [["C", 1]]]], ["crn1", "reg", "check0"]))
     out.append(_case("isolated", ["A >> B"], ["crn1", ["add", ["n_1", "r", P("A"), P("2 B")]], "nondeg", "crn1"], iso=["Z"]))
